@@ -222,6 +222,13 @@ def main():
     import c04
     for fam in ('kamata_solid_static_compressible', 'kamata_solid_dynamic_compressible', 'kamata_solid_dynamic_incompressible'):
         jobs.append((c04.job_span, {'fam': fam, 'l': 2}))
+    # the pipeline pieces between the ODE classes and the Love numbers: real/imag packing of every solid ODE class (justifies the formal-indeterminate encoding used above) and the
+    # call-site data flow of the collapse loop / Love-number extraction of cf_radial_solver for a single solid layer and a two-layer solid stack (C02 obligations)
+    import c02
+    for cls in rs.SOLID:
+        jobs.append((rs.job_packing, {'cls': cls, 'l': 3}))
+    for stack in ([(0, True, True)], [(0, False, False), (0, False, False)]):
+        jobs.append((c02.job_collapse_glue, {'stack': stack}))
     meta = {
         'explanation': 'The solver cannot integrate an ODE; it decides that every ALGEBRAIC link of the shooting pipeline is exact. (1) The three polynomial regular solutions of the uniform-sphere problem '
                        '(built by untrusted sympy linear algebra) satisfy the real SolidStaticIncompressible.diffeq component-wise; (2) pushed through the real bc_pointer construction, cf_apply_surface_bc '
